@@ -14,7 +14,7 @@ ASSUMPTIONS = ["ROC < 2^32-1 throughout", "authentic traffic (sender session wit
 def scenario(rng, k, tier):
     """sender S(1) and receiver R(2); both get set_roc(r) at some point; traffic continues over >= 2 wraps."""
     ssrc = rng.randrange(1, 1 << 32)
-    xt = k % 4 == 2       # RFC 6904 ids configured and every packet carries a listed element (the header-extension IV is built from the same index)
+    xt = k % 4 == 2 or k % 5 == 3       # RFC 6904 ids configured and every packet carries a listed element (the header-extension IV is built from the same index)
     p = default_policy(rng, ssrc, window=rng.choice([128, 1024]), **({"enc_xtn": b"\x01"} if xt else {}))
     L = [p.line(1), "create 1 1", "create 2 1"]
     info = []          # (line_no, kind, data) for the monitor
